@@ -30,6 +30,7 @@
 #include "pca.h"
 #include "preprocessing.h"
 #include "numeric.h"
+#include "verif_hooks.h"
 
 
 void NewUPCAModel(UPCAMODEL** m)
@@ -327,6 +328,7 @@ void UPCA(tensor *X_, size_t npc, size_t autoscaling, UPCAMODEL *m, ssignal *s)
           PrintDVector(t_new);
           #endif
 
+          VERIF_ITER("UPCA", pc, DVectorDVectorDotProd(t_new, t_new), a, calcConvergence(t_new, t_old));
           if(calcConvergence(t_new, t_old) < UPCACONVERGENCE){
             /* storing results */
             MatrixAppendCol(m->scores, t_new);
